@@ -181,10 +181,9 @@ def gen_gate_tasks(seed: int, tier: str) -> List[Dict[str, Any]]:
     r = core.rng(seed, "gate-classes")
     for ci, cls in enumerate(classes):
         if tier == "quick":
-            combos = [(p, pos) for p in gw.PLUGINS for pos in ("single",)]
-            combos = [r.choice(combos), (r.choice(gw.PLUGINS), "second")]
+            combos = [(r.choice(gw.PLUGINS), "single"), (r.choice(gw.PLUGINS), "second"), (r.choice(gw.PLUGINS), r.choice(["first", "first", "middle"]))]
         else:
-            combos = [(p, pos) for p in gw.PLUGINS for pos in ("single", "second")]
+            combos = [(p, pos) for p in gw.PLUGINS for pos in ("single", "second", "first", "middle")]
         for p, pos in combos:
             rs = core.derive(seed, PROP, "gate", ci, p, pos)
             tasks.append({"kind": "gate_class", "run_seed": rs, "cls": list(cls), "plugin": p, "position": pos,
@@ -303,10 +302,12 @@ def run_gate_class(t: Dict[str, Any]) -> Dict[str, Any]:
     probes["violation_class_fired"] += 1
     w = gw.World(f"c18g-{t['run_seed']}")
     try:
-        if t["position"] == "second":
+        if t["position"] in ("second", "first", "middle"):
             good = _sub_for_gate(core.derive(t["run_seed"], "good") % 2**40)
-            files = w.write_models("m", [models.dumps(good), models.dumps(bad)])
-            probes["second_file_bad"] += 1
+            good2 = _sub_for_gate(core.derive(t["run_seed"], "good2") % 2**40)
+            order = {"second": [good, bad], "first": [bad, good], "middle": [good, bad, good2]}[t["position"]]
+            files = w.write_models("m", [models.dumps(x) for x in order])
+            probes["second_file_bad" if t["position"] == "second" else "first_file_bad"] += 1
         else:
             files = w.write_models("m", [models.dumps(bad)])
         viol = gate_check(w, t["plugin"], files, t["prepopulate"], t["run_seed"], "schema-invalid", probes)
@@ -351,7 +352,7 @@ def _probes() -> Dict[str, int]:
     return {k: 0 for k in ["loads", "readbacks", "merges", "merge_files", "compares", "node_compares", "equal_pairs_judged", "unequal_pairs_judged",
                            "annotation_only_pair", "alias_compared", "flip_kept_valid", "fault_schema_invalid", "fault_not_json", "gate_invocations",
                            "gate_prepopulated", "second_file_bad", "violation_class_fired", "edits_applied", "edits_with_rare_kinds", "load_rejected_valid",
-                           "plugin_probe_unavailable", "unreadable_enoent", "unreadable_eio", "unreadable_directory", "metadata_first_file"]}
+                           "plugin_probe_unavailable", "reloads_same_objects", "first_file_bad", "unreadable_enoent", "unreadable_eio", "unreadable_directory", "metadata_first_file"]}
 
 
 def _result(t: Dict[str, Any], viol: List[Dict[str, str]], probes: Dict[str, int], skipped: Optional[str] = None, evlog: Any = None) -> Dict[str, Any]:
@@ -359,9 +360,11 @@ def _result(t: Dict[str, Any], viol: List[Dict[str, str]], probes: Dict[str, int
             "digest": core.digest([t["kind"], evlog]), "evlog": evlog}
 
 
-def _load(docs: List[Dict[str, Any]]) -> Any:
+def _load(docs: List[Dict[str, Any]], reuse: bool = False) -> Any:
+    """reuse=True hands the caller's own parsed objects to the loader (as generator/__main__ does);
+    otherwise a fresh parse of the same text."""
     gm = G["gm"]
-    return gm.create_lsp_model([json.loads(json.dumps(d)) for d in docs])
+    return gm.create_lsp_model(list(docs) if reuse else [json.loads(json.dumps(d)) for d in docs])
 
 
 def _compare_models(loads: List[Tuple[Dict[str, Any], Any]], r: random.Random, probes: Dict[str, int], viol: List[Dict[str, str]]) -> None:
@@ -489,6 +492,18 @@ def run_history(t: Dict[str, Any]) -> Dict[str, Any]:
                     doc = d2
                 evlog.append(["ANNOT", name])
             elif kind == "RELOAD":
+                # two loads of the very same parsed object
+                probes["reloads_same_objects"] += 1
+                obj = copy.deepcopy(doc)
+                try:
+                    ma, mb = _load([obj], reuse=True), _load([obj], reuse=True)
+                    dd = first_diff(norm_doc(doc), readback(mb))
+                    if dd:
+                        viol.append({"sig": f"second-load-differs:{path_class(dd)}", "msg": f"op {oi}: second load of the same parsed document differs: {dd}"})
+                    elif not (ma == mb):
+                        viol.append({"sig": "equal-documents-compare-unequal", "msg": f"op {oi}: two loads of the same parsed document compare unequal"})
+                except Exception as e:
+                    viol.append({"sig": f"reload-raised:{norm_exc(e)}", "msg": f"op {oi}: {core.fmt_exc(e)[:300]}"})
                 load_and_check(doc, f"op {oi} RELOAD")
                 evlog.append(["RELOAD"])
             elif kind == "SPLIT":
@@ -503,15 +518,34 @@ def run_history(t: Dict[str, Any]) -> Dict[str, Any]:
                     continue
                 probes["merges"] += 1
                 probes["merge_files"] += len(parts)
+                pristine = copy.deepcopy(parts)
+                reuse = sr.random() < 0.6
                 try:
-                    m = _load(parts)
+                    m = _load(parts, reuse=reuse)
                 except Exception as e:
                     viol.append({"sig": f"merge-rejected:{norm_exc(e)}", "msg": f"op {oi}: {len(parts)} schema-valid files rejected: {core.fmt_exc(e)[:300]}"})
                     continue
-                want = models.merge_reference(parts)
+                want = models.merge_reference(pristine)
                 diff = first_diff(norm_doc(want), readback(m))
                 if diff:
                     viol.append({"sig": f"merge-differs:{path_class(diff)}", "msg": f"op {oi}: merge of {len(parts)} files is not the in-order concatenation: {diff}"})
+                if reuse:
+                    # the same parsed documents loaded again (two loads of the same document), and the
+                    # first one loaded alone afterwards: neither may be affected by the earlier merge
+                    probes["reloads_same_objects"] += 1
+                    try:
+                        m2 = _load(parts, reuse=True)
+                        d2 = first_diff(norm_doc(want), readback(m2))
+                        if d2:
+                            viol.append({"sig": f"second-merge-differs:{path_class(d2)}", "msg": f"op {oi}: loading the same {len(parts)} parsed documents a second time gives a different model: {d2}"})
+                        elif not (m == m2):
+                            viol.append({"sig": "equal-documents-compare-unequal", "msg": f"op {oi}: two merged loads of the same documents compare unequal"})
+                        m3 = _load(parts[:1], reuse=True)
+                        d3 = first_diff(norm_doc(pristine[0]), readback(m3))
+                        if d3:
+                            viol.append({"sig": f"load-after-merge-differs:{path_class(d3)}", "msg": f"op {oi}: the first document loaded alone after having been merged differs from its text: {d3}"})
+                    except Exception as e:
+                        viol.append({"sig": f"reload-raised:{norm_exc(e)}", "msg": f"op {oi}: loading the same documents again raised {core.fmt_exc(e)[:300]}"})
                 # the merged model must equal a single-file load of the same content
                 try:
                     if loads and norm_doc(loads[-1][0]) == norm_doc(want) and not (m == loads[-1][1]):
